@@ -1381,9 +1381,7 @@ def exhaustive(ctx, dendropy, rng, pending):
                     count += 1
             if n >= 2:
                 # one matrix object: this shape, new lengths, another tree over the same taxa, this shape again, NJ/UPGMA twice
-                other = tu.build_tree(dendropy, tu.rand_shape(rng, rng.randint(2, n), p_poly=0.3, p_unary=0.0), tns,
-                                      rng.sample(list(tns), n)[:rng.randint(2, n)], lambda: tu.dyadic(rng, 0.1), None)
-                ol = len(leaves_lr(other))
+                ol = rng.randint(2, n)
                 other = tu.build_tree(dendropy, tu.rand_shape(rng, ol, p_poly=0.3, p_unary=0.0), tns, rng.sample(list(tns), ol),
                                       lambda: tu.dyadic(rng, 0.1), None)
                 one_case(ctx, dendropy, {"op": "hist", "ns": n, "steps": [
